@@ -24,15 +24,38 @@ def prop(pid, **kw):
     kw.setdefault("trusted", [])
     PROPS[pid] = kw
 
-prop("C13",
-     title="handle is one pointer wide with a niche",
-     equiv=[],
-     trusted=["coq/Layout.v: rustc's repr(Rust) struct layout rules are MODELLED (40 lines), not verified; "
-              "rustc is the observed oracle (size_of/align_of table printed by the harness)"],
-     impl="sizes")
+HAND = ("the hand-written part of coq/Machine.v (element shifting, iterators, guards, unwinding, implicit drops) is MODELLED, "
+        "not verified against the source: its tie is the correspondence run (real crate under the checking allocator with "
+        "identity-tracked elements vs. the machine extracted to OCaml, traces compared per operation)")
+EXTR = "extraction to OCaml with ExtrOcamlBasic only (no Extract Constant of ours) and driver/driver.ml"
+UBDEF = ("the machine's catalogue of UB kinds is the definition of memory unsafety used; Rust's aliasing model, provenance and "
+         "optimiser-dependent manifestations of UB are not modelled")
 
-for _p in ("C01","C02","C03","C04","C05","C06","C07","C08","C09","C10","C11","C12","C14","C15","C17","C18"):
-    prop(_p, title=_p)
+prop("C01", title="operation sequences behave like std Vec", trusted=[HAND, EXTR, "std::vec::Vec as the oracle of the list-level spec (three-way run)"])
+prop("C02", title="exactly-once ownership", trusted=[HAND, EXTR, UBDEF])
+prop("C03", title="allocator contract", equiv=["next_aligned_equiv", "make_layout_equiv", "max_align_equiv"], trusted=[HAND, EXTR, UBDEF, "the GlobalAlloc contract as written in Machine.do_realloc/do_dealloc"])
+prop("C04", title="panic safety", trusted=[HAND, EXTR, UBDEF])
+prop("C05", title="forget safety", trusted=[HAND, EXTR, UBDEF])
+prop("C06", title="never-allocated vector", trusted=[HAND, EXTR, UBDEF], profiles="dr")
+prop("C07", title="capacity honest / reservation contract / stability", equiv=["next_aligned_equiv", "make_layout_equiv"], trusted=[HAND, EXTR])
+prop("C08", title="alignment", equiv=["next_aligned_equiv", "make_layout_equiv", "max_align_equiv"], trusted=[HAND, EXTR])
+prop("C09", title="impossible sizes", equiv=["next_aligned_equiv", "make_layout_equiv", "max_align_equiv"], quick_n=240, thorough_n=4000, child_timeout=15,
+     trusted=[HAND, EXTR, "Eval.v's reading of usize arithmetic (panic in debug, wrap in release), checked_add/checked_mul and Layout::from_size_align"])
+prop("C10", title="iterator protocol", trusted=[HAND, EXTR])
+prop("C11", title="out-of-range arguments rejected atomically", trusted=[HAND, EXTR])
+prop("C12", title="clones deep and independent", trusted=[HAND, EXTR, UBDEF])
+prop("C13", title="handle is one pointer wide with a niche", impl="sizes",
+     trusted=["coq/Layout.v: rustc's repr(Rust) struct layout rules are MODELLED (40 lines), not verified; "
+              "rustc is the observed oracle (size_of/align_of table printed by the harness)"])
+prop("C14", title="raw-pointer round trip", equiv=["next_aligned_equiv"], trusted=[HAND, EXTR, UBDEF])
+prop("C15", title="slice semantics of comparisons", trusted=[HAND, EXTR, "the delegation shapes are read from syntax (rs2v deleg_shape); core's slice impls are trusted"])
+prop("C16", title="compile-time rules", impl="rustc",
+     trusted=["rustc is the observed oracle: the corpus of must-not-compile / must-compile programs is compiled against the current crate",
+              "coq/Static.v checks signature tables only; Rust's borrow checker, auto-trait derivation and variance are NOT modelled"])
+prop("C17", title="ill-behaved safe callbacks", trusted=[HAND, EXTR, UBDEF])
+prop("C18", title="allocation failure", equiv=["make_layout_equiv"], quick_n=240, thorough_n=3000, trusted=[HAND, EXTR])
+prop("C19", title="serde", equiv=["map_size_hint_equiv"], impl="serde",
+     trusted=["the two visitor loops of src/serde.rs are not modelled in Coq; they are exercised by the harness with a recording serializer and a scripted SeqAccess"])
 
 def coq_side(ctx, P):
     """translator + build + property file + audit.  returns dict"""
